@@ -54,6 +54,24 @@ M("c20-loadbalancing-offset", "C20,C02", "break", (H, 'struct.unpack("!HH", buf[
 M("c02-twin-struct-pack-inline", "C02,C20", "benign", (H, "        return self.__format.pack(len(buf), type_b) + buf", '        return struct.pack("!HB", len(buf), type_b) + buf'))
 M("c02-twin-guard-form", "C02,C20", "benign", (H, "        if oi1 + no1 > num_options:", "        if not (oi1 + no1 <= num_options):"))
 
+# ---------------------------------------------------------------- object model (rules/model.py): hooks that change what ==, bool(),
+# Enum(value) and Cls(...) mean for the code the rules read - and hooks that do not
+_INST_REPR = "    def __repr__(self):\n        return f\"<ServiceInstance {self.service}>\"\n"
+M("om-instance-eq-by-service", "C10,C11,C12", "break", (S, _INST_REPR, _INST_REPR + "\n    def __eq__(self, other):\n        if not isinstance(other, ServiceInstance):\n            return NotImplemented\n        return self.service == other.service\n\n    def __hash__(self):\n        return hash(self.service)\n"))
+M("om-twin-instance-eq-is-identity", "C10,C11,C12", "benign", (S, _INST_REPR, _INST_REPR + "\n    def __eq__(self, other):\n        return self is other\n\n    def __hash__(self):\n        return id(self)\n"))
+M("om-service-minor-not-compared", "C05,C09,C12,C13,C19", "break", (C, "    minor_version: int = 0xFFFFFFFF\n\n    options_1", "    minor_version: int = dataclasses.field(default=0xFFFFFFFF, compare=False)\n\n    options_1"))
+M("om-service-options-compared", "C05,C09,C12,C13,C19", "break", (C, "    options_1: typing.Tuple[someip.header.SOMEIPSDOption, ...] = dataclasses.field(\n        default=(), compare=False\n    )", "    options_1: typing.Tuple[someip.header.SOMEIPSDOption, ...] = ()"))
+M("om-twin-service-extra-uncompared-field", "C05,C09,C12,C13,C19", "benign", (C, "    eventgroups: typing.FrozenSet[int] = frozenset()\n", "    eventgroups: typing.FrozenSet[int] = frozenset()\n    description: str = dataclasses.field(default=\"\", compare=False)\n"))
+M("om-twin-service-str", "C05,C13,C19", "benign", (C, "    eventgroups: typing.FrozenSet[int] = frozenset()\n", "    eventgroups: typing.FrozenSet[int] = frozenset()\n\n    def __str__(self) -> str:\n        return f\"{self.service_id:04x}.{self.instance_id:04x}\"\n"))
+M("om-service-post-init-rewrites-minor", "C19,C05,C13", "break", (C, "    eventgroups: typing.FrozenSet[int] = frozenset()\n", "    eventgroups: typing.FrozenSet[int] = frozenset()\n\n    def __post_init__(self):\n        if self.major_version == 0xFF:\n            object.__setattr__(self, \"minor_version\", 0xFFFFFFFF)\n"))
+M("om-twin-service-post-init-coerces-eventgroups", "C19,C05,C13", "benign", (C, "    eventgroups: typing.FrozenSet[int] = frozenset()\n", "    eventgroups: typing.FrozenSet[int] = frozenset()\n\n    def __post_init__(self):\n        object.__setattr__(self, \"eventgroups\", frozenset(self.eventgroups))\n"))
+M("om-return-code-missing-maps", "C01,C03,C18,C20", "break", (H, "    E_WRONG_MESSAGE_TYPE = 10\n", "    E_WRONG_MESSAGE_TYPE = 10\n\n    @classmethod\n    def _missing_(cls, value):\n        if isinstance(value, int) and 0x20 <= value <= 0x5E:\n            return cls.E_NOT_OK\n        return None\n"))
+M("om-twin-return-code-missing-rejects", "C01,C03,C18,C20", "benign", (H, "    E_WRONG_MESSAGE_TYPE = 10\n", "    E_WRONG_MESSAGE_TYPE = 10\n\n    @classmethod\n    def _missing_(cls, value):\n        return None\n"))
+M("om-eventgroup-len", "C17", "break", (V, "class SimpleEventgroup:\n", "class SimpleEventgroup:\n    def __len__(self):\n        return len(self.values)\n\n"))
+M("om-twin-log-exceptions-other-property", "C03,C18,C13", "benign", ("utils.py", "                except Exception:\n                    self.log.exception(\n                        msg.format(__func__=f.__qualname__, *args, **kwargs)\n                    )\n\n        else:", "                except BaseException:\n                    self.log.exception(\n                        msg.format(__func__=f.__qualname__, *args, **kwargs)\n                    )\n\n        else:"))
+M("om-twin-eventgroup-repr", "C17", "benign", (V, "class SimpleEventgroup:\n", "class SimpleEventgroup:\n    def __repr__(self):\n        return f\"<SimpleEventgroup {self.id:#x}>\"\n\n"))
+M("om-log-exceptions-catches-base", "C08,C10,C12,C14,C17", "break", ("utils.py", "                except Exception:\n                    self.log.exception(\n                        msg.format(__func__=f.__qualname__, *args, **kwargs)\n                    )\n\n        else:", "                except BaseException:\n                    self.log.exception(\n                        msg.format(__func__=f.__qualname__, *args, **kwargs)\n                    )\n\n        else:"))
+
 # ---------------------------------------------------------------- C07
 M("c07-ge-to-gt", "C07", "break", (S, "old_session_id >= session_id", "old_session_id > session_id"))
 M("c07-key-without-channel", "C07", "break", (S, "k = (sender, multicast)", "k = (sender,)"))
